@@ -70,8 +70,8 @@ func GenCfg(g *vh.Gen, o Opts) (Cfg, []string) {
 		pool[j] = genDomain(g)
 	}
 	pool = append(pool, "[127.0.0.1]")
-	c := Cfg{Naming: g.Pick("local", "full", "domain"), MaxRcpt: g.Pick2(200, 200, 3, 1, 0), MaxBytes: 10240000,
-		DA: g.Chance(0.7), DS: g.Chance(0.7), Store: g.Pick("mem", "file")}
+	c := Cfg{Naming: g.Pick("local", "full", "domain"), MaxRcpt: g.Pick2(200, 200, 200, 200, 3, 2, 1, 0), MaxBytes: 10240000,
+		DA: g.Chance(0.85), DS: g.Chance(0.85), Store: g.Pick("mem", "file")}
 	c.Acc, c.Rej = genList(g, pool, false), genList(g, pool, false)
 	c.Sto, c.Dis = genList(g, pool, false), genList(g, pool, false)
 	c.RejO = genList(g, pool, true)
@@ -82,7 +82,7 @@ func GenCfg(g *vh.Gen, o Opts) (Cfg, []string) {
 }
 
 func genAddr(g *vh.Gen, pool []string) string {
-	if g.Chance(0.12) {
+	if g.Chance(0.08) {
 		return g.Pick(badAddrs...)
 	}
 	d := g.Pick(pool...)
